@@ -12,7 +12,8 @@ RULE = ("cases: eps-NFA/NFA/DFA built through the public API from canonical reco
         "shuffled construction order; thorough additionally enumerates every eps-NFA with <=2 states over 1 symbol "
         "and slices of 2 states/2 symbols). "
         "A case is non-trivial when it has >=1 transition and its language is neither empty nor Sigma*; "
-        "distinct = distinct canonical-case hash.")
+        "distinct = distinct canonical-case hash."
+        " Later additions: construction through the constructor (declared states, a ready-made transition function) and add_transitions; epsilon spelled 'epsilon' / Epsilon() / the letter; equal-hash and print-alike values; words as lists, tuples, one-shot iterables and Symbol objects; edit scripts (also refused and count-preserving edits, epsilon edits) followed by the same queries; the automaton is also compared with the case record it was built from.")
 ASSUMPTIONS = ["epsilon spelled as a word symbol ('epsilon' inside a word) is not judged (classes differ by design)"]
 TIERS = {
     "quick": {"workers": 4, "random": 1500, "words": 3},
